@@ -154,6 +154,7 @@ type FnCtx struct {
 	ghostSort    map[string]string
 	sentOf       map[ssa.Value][]string // hand-off flags of SSA values that are sent on a channel
 	sentAt       []sentSite
+	unfrozen     map[string]bool // immutable regions the callee being applied may write (it reaches a declared writer)
 	ghost0       map[string]string
 	defers       []deferred
 	subrefSeen   map[string]bool
@@ -175,6 +176,7 @@ type deferred struct {
 }
 
 type loopInfo struct {
+	unfrozen map[string]bool
 	header   *ssa.BasicBlock
 	body     map[*ssa.BasicBlock]bool
 	latches  []*ssa.BasicBlock
